@@ -4,7 +4,7 @@ import json, glob, os
 rows = []
 for f in sorted(glob.glob('/verif/seeded/*/meta.json')):
     m = json.load(open(f)); v = m.get('verification', {})
-    rows.append((os.path.basename(os.path.dirname(f)), m.get('property'), (m.get('summary') or '').replace('\n', ' ')[:230], (m.get('needs') or '').replace('\n', ' ')[:200],
+    rows.append((os.path.basename(os.path.dirname(f)), m.get('property'), (('[' + m['note'] + '] ' if m.get('note') else '') + (m.get('summary') or '')).replace('\n', ' ')[:(420 if m.get('note') else 230)], (m.get('needs') or '').replace('\n', ' ')[:200],
                  'yes' if all(v.get(k) for k in ('demo_passes_on_clean_tree', 'patch_applies', 'demo_fails_with_patch', 'suite_passes_with_patch')) else 'NO',
                  ', '.join(v.get('detected_by', [])) or '-'))
 out = ["# Seeded changes (sensitivity test)", "",
